@@ -96,6 +96,8 @@ func runC18(p *Prog, r *Result) {
 	checkByteWidenedToRune(p, r, "R18c")
 	r.Rule("R18d", "a pattern found to have no metacharacters is used as text only with its escapes removed: that is the one string it matches", 1)
 	checkLiteralPatternsUnescaped(p, r, "R18d")
+	r.Rule("R18e", "in the expansion of a command word, the character after a backslash in an unquoted literal becomes a quoted part of the field: an escaped metacharacter is not a pattern", 1)
+	checkEscapedLiteralsQuoted(p, r, "R18e")
 	r.Rule("R18b", "Regexp's verbatim short-cut is taken only for patterns without any regexp metacharacter", 1)
 	checkRegexpShortcut(p, r, "R18b")
 
@@ -286,6 +288,8 @@ func bodyReturnsTrue(info *types.Info, body []ast.Stmt) bool {
 }
 
 var c18Controls = []Control{
+	{Name: "escaped-characters-left-unquoted", Rule: "R18e", WantKey: "wordFields#the character after a backslash", File: "expand/expand.go",
+		Mutate: ctlReplaceAnywhere("\t\t\t\tcurField = append(curField,\n\t\t\t\t\tfieldPart{val: before},\n\t\t\t\t\tfieldPart{quote: quoteSingle, val: after[:size]})\n", "\t\t\t\tcurField = append(curField,\n\t\t\t\t\tfieldPart{val: before},\n\t\t\t\t\tfieldPart{val: after[:size]})\n")},
 	{Name: "literal-path-element-joined-with-its-escapes", Rule: "R18d", WantKey: "glob#part, found to have no metacharacters", File: "expand/expand.go",
 		Mutate: ctlReplaceAnywhere("\t\t\tpart := internal.UnescapePattern(part)\n", "")},
 	{Name: "regexp-shortcut-forgets-plus", Rule: "R18b", WantKey: "short-cut set covers", File: "pattern/pattern.go",
